@@ -197,7 +197,7 @@ def path_task(item):
 # ---------------------------------------------------------------------------
 # 2. emit scripts
 
-TEXTS = ['x', '{', '}', '{}', '{0}', '{x}', '{{', '}}', '%s', 'é✓', 'a {b} c']
+TEXTS = ['x', '{', '}', '{}', '{0}', '{x}', '{{', '}}', '%s', 'é✓', 'a {b} c', ' ', '\t', '\u00a0\u3000', '  x  ']
 SENTENCE = 'The quick {brown} fox %s jumps over {0} the lazy dög and keeps running until the line is long enough to wrap.'
 
 
